@@ -674,7 +674,7 @@ class pdb2sql(pdb2sql_base):
         nrow = len(values)
         ncol = len(values[0])
 
-        if natt != ncol:
+        if any(len(val) != natt for val in values):
             raise ValueError(
                 'Number of cloumns does not match between argument columns and values')
 
